@@ -71,6 +71,7 @@ type Conn struct {
 
 	Local, Remote net.Addr
 
+	lateWrites int // Write calls after Close
 	ReadCalls  int
 	ReadBytes  int
 	closedCh   chan struct{}
@@ -167,6 +168,7 @@ func (c *Conn) Write(b []byte) (int, error) {
 	defer c.wmu.Unlock()
 	c.mu.Lock()
 	if c.closed {
+		c.lateWrites++
 		c.mu.Unlock()
 		return 0, ErrClosed
 	}
@@ -251,6 +253,13 @@ func (c *Conn) Close() error {
 	c.cond.Broadcast()
 	c.closeOnce.Do(func() { close(c.closedCh) })
 	return nil
+}
+
+// WritesAfterClose reports how many Write calls were made after Close.
+func (c *Conn) WritesAfterClose() int {
+	c.mu.Lock()
+	defer c.mu.Unlock()
+	return c.lateWrites
 }
 
 // Closed is closed when Close has been called at least once.
